@@ -283,6 +283,8 @@ class Interp:
             return self._modcache[key]
         r = self.repo.resolve_name(m, name)
         if r is None:
+            if name == "__file__":
+                return m.path      # the module's own source file (data files shipped next to it are located from it)
             if name in PYTYPES:
                 return PYTYPES[name]
             if name in BUILTIN_EXC:
@@ -407,7 +409,7 @@ class Interp:
         v = self.module_global(m, name)
         if v is not _MISSING:
             return v
-        if name in _BUILTIN_FUNCS:
+        if name in _BUILTIN_FUNCS or (name == "open" and "ext:builtins.open" in self.hooks):
             return ExtVal(f"builtins.{name}")
         if name in ("True", "False", "None"):
             return {"True": True, "False": False, "None": None}[name]
